@@ -30,6 +30,9 @@ pub struct Shared {
     pub clock_fail: Cell<bool>,
     /// value returned as next_update by the recording filter's `update`
     pub filter_next_update_ns: Cell<Option<u64>>,
+    /// what the recording filter reports as its current estimates (offset, mean delay; 2^-32 ns)
+    pub est_offset_bits: Cell<i128>,
+    pub est_delay_bits: Cell<i128>,
 }
 
 #[derive(Clone, Debug, PartialEq)]
@@ -163,8 +166,8 @@ impl Filter for RecFilter {
     }
     fn current_estimates(&self) -> FilterEstimate {
         FilterEstimate {
-            offset_from_master: Duration::ZERO,
-            mean_delay: Duration::ZERO,
+            offset_from_master: dur_from_bits(self.sh.est_offset_bits.get()),
+            mean_delay: dur_from_bits(self.sh.est_delay_bits.get()),
         }
     }
 }
